@@ -1,8 +1,9 @@
 #!/usr/bin/env python3
 """Print the prompt given to an independent sub-agent that seeds a property-breaking change.
-Usage: seed_prompt.py <property id> <worktree> <outdir>   (only the property text is shared)"""
+Usage: seed_prompt.py <property id> <worktree> <outdir> [first mutation number]   (only the property text is shared)"""
 import json, sys
 pid, wt, out = sys.argv[1:4]
+k0 = int(sys.argv[4]) if len(sys.argv) > 4 else 1   # number of the first mutation (later batches continue the numbering)
 p = [json.loads(l) for l in open('/verif/properties.jsonl') if json.loads(l)['id'] == pid][0]
 print(f"""You are helping test a verification effort for the C++14 header-only library xtensor-stack/xtl.
 You have your own scratch git worktree of the library at {wt} (work ONLY there and in {out}; never touch /repo or /verif, never read /verif).
@@ -16,7 +17,7 @@ RELEVANT FILES: {', '.join(p['anchors']['files'])}
 
 Your job: produce THREE independent, realistic source changes ("mutations") to the library headers under {wt}/include/xtl, each of which BREAKS this property while the library still compiles and the existing test-suite still passes completely. Each should be the kind of bug a maintainer could plausibly introduce in a refactor or 'optimisation' (not an obviously malicious edit), and each must need something specific to manifest - an unusual input, a boundary size, a multi-step sequence of operations, a particular configuration/template instantiation, or two cooperating sites that each look fine alone - i.e. NOT something ordinary use or the existing tests would expose at once. Make the three changes different in kind (different functions / different mechanisms). Keep each change small (a few lines).
 
-For each mutation k in 1..3 deliver, in {out}/:
+For each mutation k in {k0}..{k0+2} deliver, in {out}/:
   - mut<k>.diff : `git diff` of that ONE change relative to the pristine worktree HEAD (apply-able with `git apply` at the repo root; headers only; do not edit tests),
   - demo<k>.cpp : a small stand-alone C++14 program (compile: g++ -std=c++14 -I<root>/include demo<k>.cpp) that exits 0 on the pristine tree and exits non-zero (printing what differs) with the mutation applied. Do not use -march flags or sanitizers unless the mutation needs them, and say so if it does.
   - a line in {out}/README.md: which function/site was changed, why it breaks the property, and what it needs in order to manifest.
